@@ -18,7 +18,7 @@ def Cases(tier):
     prog, query, feats = gen.Generate(rng, gen.CORE)
     cases.append({'id': 'g%d' % i, 'prog': prog, 'query': query,
                   'meta': {'features': feats, 'source': 'random'}})
-  return cases
+  return cases + semrun.Reproducers(PROP)
 
 
 REQUIRED = ['join', 'disjunction', 'dup_fact', 'arith', 'assign', 'inc_bind',
